@@ -190,6 +190,10 @@ class VM:
         )
         self.call_stack.append(frame)
 
+        # The context keeps track of the interpreters that are running (nested
+        # eval / Function code, re-entrant host calls), innermost last
+        running = self.context._running_vms if self.context is not None else []
+        running.append(self)
         try:
             return self._execute()
         except RecursionError:
@@ -197,6 +201,8 @@ class VM:
             # valueOf, call/apply, eval) nests host frames: report running out
             # of them as the engine's own limit error, not the host's
             raise MemoryLimitError("Maximum call stack size exceeded")
+        finally:
+            running.pop()
 
     def _clock_start(self) -> float:
         """Start of the evaluation in flight.
@@ -2402,6 +2408,13 @@ class VM:
         self, callback: JSValue, args: List[JSValue], this_val: JSValue = None
     ) -> JSValue:
         """Call a callback function synchronously and return the result."""
+        # A built-in method can outlive the evaluation whose interpreter created
+        # it (kept in a global: var each = arr.forEach). Its callbacks run on
+        # the interpreter that is executing now, with that one's stacks, limits
+        # and exception handlers, not on the leftovers of a run that is over
+        running = self.context._running_vms if self.context is not None else None
+        if running and self not in running:
+            return running[-1]._call_callback(callback, args, this_val)
         # Remember where the frames of this native call start, so that a throw
         # whose handler is below them leaves the native call first (_throw)
         self._native_bases.append(len(self.call_stack))
